@@ -878,12 +878,49 @@ static void run_common(const gsim::Workload* w)
     // controller waits, with a wall-clock watchdog
     struct timespec ts;
     long waited_ms = 0;
+    // A run takes microseconds.  If the thread that holds the baton burns CPU for
+    // seconds without reaching a single scheduling point, the code under test is in
+    // an endless loop that contains no synchronisation (e.g. a corrupted container
+    // walk): that is a violation ("hangs"), reported with a replay like any other.
+    // A thread that is *asleep* instead sits in a primitive the runtime does not
+    // interpose: that is an infrastructure error.
+    uint64_t wd_step = ~0ull;
+    Thread* wd_thr = nullptr;
+    int64_t wd_cpu0 = 0;
+    auto thread_cpu_ns = [](Thread* t) -> int64_t {
+        clockid_t cid;
+        struct timespec c;
+        if (!t || pthread_getcpuclockid(t->pt, &cid) != 0) return -1;
+        if (syscall(SYS_clock_gettime, cid, &c) != 0) return -1;
+        return (int64_t)c.tv_sec * 1000000000ll + c.tv_nsec;
+    };
     while (!__atomic_load_n(&g_done, __ATOMIC_ACQUIRE)) {
         ts.tv_sec = 0;
         ts.tv_nsec = 200 * 1000 * 1000;
         syscall(SYS_futex, &g_done, FUTEX_WAIT_PRIVATE, 0, &ts, nullptr, 0);
         if (!__atomic_load_n(&g_done, __ATOMIC_ACQUIRE)) {
+            Thread* cur = g_cur;
+            uint64_t step = g_step;
+            if (step != wd_step || cur != wd_thr) {
+                wd_step = step;
+                wd_thr = cur;
+                wd_cpu0 = thread_cpu_ns(cur);
+                waited_ms = 0;
+                continue;
+            }
             waited_ms += 200;
+            long spin_ms = 1000;
+            if (const char* e = getenv("GSIM_SPIN_MS")) spin_ms = atol(e);
+            if (waited_ms >= spin_ms && wd_cpu0 >= 0 && !g_failing) {
+                int64_t c = thread_cpu_ns(cur);
+                if (c >= 0 && (c - wd_cpu0) / 1000000 >= spin_ms * 9 / 10) {
+                    hmix(0x5B1D);
+                    failf("endless_loop", "thread %d used %lld ms of CPU after step %llu without "
+                          "reaching a scheduling point: an endless loop without synchronisation in "
+                          "the code under test", cur ? cur->id : -1,
+                          (long long)((c - wd_cpu0) / 1000000), (unsigned long long)step);
+                }
+            }
             long lim = g_trace ? 60000 : 10000;
             if (const char* e = getenv("GSIM_WATCHDOG_MS")) lim = atol(e);
             if (waited_ms >= lim) {
